@@ -798,6 +798,23 @@ def systematic_fp_mutants(g, rng):
                       ("byte-reversed", crc[::-1]), ("XOR 0x5354554e, byte-reversed", [crc[i] ^ xc[i] for i in range(4)][::-1]),
                       ("XOR 0x4e555453", [crc[i] ^ xc[3 - i] for i in range(4)]), ("zero", [0, 0, 0, 0]), ("the constant itself", xc)):
         add(b[:n - 4] + val, "CRC value %s" % what)
+    # checksums a lenient or mistaken verifier might also take: computed before the length field was updated (it then
+    # does not cover the attribute), over the body without the header, over the attribute header as well, with the length
+    # field zeroed, with another initial value - all XORed with the constant as the RFC says
+    import zlib
+    pre = bytes(b[:n - 8])
+    def withlen(x, L2):
+        x = bytearray(x)
+        x[2], x[3] = (L2 >> 8) & 255, L2 & 255
+        return bytes(x)
+    for what, data in (("length field not yet covering the attribute", withlen(pre, L - 8)), ("length field zero", withlen(pre, 0)),
+                       ("body only", pre[20:]), ("including the attribute header", bytes(b[:n - 4])),
+                       ("length field covering header too", withlen(pre, (L + 20) & 0xffff)), ("length field +4", withlen(pre, (L + 4) & 0xffff)),
+                       ("length field -4", withlen(pre, (L - 4) & 0xffff))):
+        for init in (0, 0xffffffff):
+            v = (zlib.crc32(data, init) ^ 0x5354554e) & 0xffffffff
+            add(b[:n - 4] + list(v.to_bytes(4, "big")), "CRC value recomputed with %s%s" % (what, "" if init == 0 else " (other initial value)"))
+            add(b[:n - 4] + list(v.to_bytes(4, "little")), "CRC value recomputed with %s, little-endian%s" % (what, "" if init == 0 else " (other initial value)"))
     for _ in range(100):
         m = list(b)
         for k in rng.sample(range(4), rng.choice([2, 3, 4])):
@@ -894,7 +911,7 @@ def c09(rep, tier, seed, wd):
 def c04(rep, tier, seed, wd):
     rng = random.Random(seed)
     gm = [g for g in gen_messages(500 if tier == "quick" else 5000, seed + 5, wd, maxattrs=3) if g["gen"]["seal"] & 3]
-    base = [{"bytes": g["bytes"], "creds": g["creds"], "src": "sealed message %d (%s, seal=%d, trunc=%d)" % (
+    base = [{"bytes": g["bytes"], "creds": g["creds"], "gid": g["id"], "src": "sealed message %d (%s, seal=%d, trunc=%d)" % (
         g["id"], "external" if g["gen"]["by_ext"] else "builder", g["gen"]["seal"], g["gen"]["trunc"])} for g in gm]
     unsealed = [{"bytes": g["bytes"], "creds": g["creds"][:2], "src": "unsealed message %d" % g["id"]}
                 for g in gen_messages(60, seed + 6, wd, maxattrs=3) if not g["gen"]["seal"] & 3]
@@ -906,16 +923,39 @@ def c04(rep, tier, seed, wd):
     for g in pick:
         b = g["bytes"]
         for m, what in bit_flips(b):
-            muts.append({"bytes": m, "creds": g["creds"][:1], "src": "sealed message %d (seal=%d), %s" % (g["id"], g["gen"]["seal"], what)})
+            muts.append({"bytes": m, "creds": g["creds"][:1], "gid": g["id"], "mut_pos": int(what.split()[1]) // 8,
+                         "src": "sealed message %d (seal=%d), %s" % (g["id"], g["gen"]["seal"], what)})
         for _ in range(len(b) * (1 if tier == "quick" else 8)):
             pos = rng.randrange(len(b))
             v = rng.randrange(256)
             if v != b[pos]:
                 m = list(b)
                 m[pos] = v
-                muts.append({"bytes": m, "creds": g["creds"][:1], "src": "sealed message %d, byte %d := %d" % (g["id"], pos, v)})
+                muts.append({"bytes": m, "creds": g["creds"][:1], "gid": g["id"], "mut_pos": pos, "src": "sealed message %d, byte %d := %d" % (g["id"], pos, v)})
+        # the type of an integrity attribute turned into the other integrity type (two bits of one byte: no single flip does it)
+        for pos in range(20, len(b) - 3, 4):
+            if b[pos] == 0 and b[pos + 1] in (0x08, 0x1c) and b[pos + 2] == 0 and b[pos + 3] in (16, 20, 24, 28, 32):
+                m = list(b)
+                m[pos + 1] ^= 0x14
+                muts.append({"bytes": m, "creds": g["creds"][:1], "gid": g["id"], "mut_pos": pos + 1,
+                             "src": "sealed message %d, byte %d := %d (the other integrity type)" % (g["id"], pos + 1, m[pos + 1])})
     triples = run_pipeline(base + unsealed + muts, wd, "c04", trace=False, chunk=3000)
     report_must(rep, "C04", triples, "case")
+    # the property's own sentence, judged without the specification's parser: a change anywhere up to and including the
+    # integrity attribute that validation checks must not leave a buffer that is accepted AND validates under the sealing key
+    covered_end = {}
+    for case, obs, exp, hang in triples:
+        if "gid" in case and "mut_pos" not in case and exp["parse"]["ok"] and exp["acc"]["plan"]["present"]:
+            pl = exp["acc"]["plan"]
+            covered_end[case["gid"]] = pl["off"] + 4 + (len(pl["mac"]) + 3) // 4 * 4
+    tamper_judged = 0
+    for case, obs, exp, hang in triples:
+        if "mut_pos" in case and case["mut_pos"] < covered_end.get(case["gid"], 0):
+            tamper_judged += 1
+            got = ((obs or {}).get("acc") or {}).get("integrity") or [{}]
+            if obs and obs["parse"].get("ok") and got[0].get("ok"):
+                rep.violation("%s: byte %d lies before the end (%d) of the integrity attribute the sealed message is validated by, yet the changed buffer is accepted by the parser and validates under the sealing credentials (%s)" % (
+                    case["src"], case["mut_pos"], covered_end[case["gid"]], json.dumps(got[0])), {"kind": "codec_case", "case": slim(case)})
     for case, obs, exp, hang in triples:
         if not case["src"].startswith("sealed message") or "byte" in case["src"] or "bit " in case["src"]:
             continue
@@ -950,6 +990,7 @@ def c04(rep, tier, seed, wd):
     if stat["validated_ok"] == 0 or stat["failed"] == 0 or stat["missing"] == 0 or len(algs) < 2:
         raise ToolError("vacuity in C04: %s %s" % (stat, algs))
     rep.add_cov(evaluations=len(triples), distinct_nontrivial=distinct(base + muts), sealed_messages=len(base), tampered=len(muts),
+                tampered_inside_the_authenticated_range=tamper_judged,
                 outcomes=stat, algorithms_reported=algs,
                 samples=[{"message": pick[0]["bytes"], "creds": pick[0]["creds"][:2], "tamper": muts[3]["src"]}],
                 rule="messages sealed by the builder and, independently, by the adapter's own HMAC code (SHA-1, SHA-256 incl. truncations 16..32 and illegal lengths 12/18/36, both, with/without FINGERPRINT; short- and long-term credentials over random UTF-8 incl. empty and ':'), validated under the sealing credentials and under alternatives (other password, short-vs-long, long-term differing in user or realm); for a sample ALL single-bit flips and random byte substitutions of the whole buffer. The specification's IntegrityPlan names the attribute checked, the exact bytes authenticated (length field rewritten) and the claimed MAC; python's hmac/hashlib computes HMAC/MD5 on exactly those bytes; the implementation's verdict and reported algorithm must equal the result")
@@ -1203,7 +1244,11 @@ def compare_attr(case, obs, exp):
                 must.append((["C13", "C08"] if ty == 32 else ["C08"], "field %s: impl %s spec %s" % (k, str(got)[:120], str(want)[:120])))
     if d.get("has_all") is False:
         must.append((["C08"], "UNKNOWN-ATTRIBUTES: has_attribute() denies a type that is in the decoded list %s" % d.get("list")))
+    if d.get("has_extra"):
+        must.append((["C08"], "UNKNOWN-ATTRIBUTES: has_attribute() claims types %s that are not among the encoded entries %s" % (d.get("has_extra"), str(d.get("list"))[:120])))
     canon = exp["canon"]
+    if d.get("re_add") is not None and d.get("re_add") != d.get("re"):
+        must.append((["C08"], "UNKNOWN-ATTRIBUTES assembled with add_attribute() encodes %s, the same list through new() %s" % (str(d.get("re_add"))[:100], str(d.get("re"))[:100])))
     if d.get("re") != canon:
         must.append((["C13", "C08"] if ty == 32 else ["C08"], "re-encoding through the constructor: %s, canonical %s" % (str(d.get("re"))[:100], canon[:30])))
     if d.get("re_builder", canon) != canon:
@@ -1511,7 +1556,9 @@ def builder_ops(pid, rep, tier, seed, wd):
             if (8 in c["types"] or 28 in c["types"]) and not integ.get("ok"):
                 extra.append((["C11", "C03", "C04"], "integrity added by the builder does not validate: %s" % json.dumps(integ)))
         for pids, w in must + extra:
-            if pid in pids or (pid in ("C03", "C11") and ("C02" in pids or "C10" in pids or "C09" in pids)):
+            # (the message is the builder's own and the credentials are the sealing ones: a disagreement with the oracle about
+            # its integrity means that what the builder sealed is not "valid integrity" - C11's last sentence, C03)
+            if pid in pids or (pid in ("C03", "C11") and ("C02" in pids or "C10" in pids or "C09" in pids or "C04" in pids)):
                 rep.violation("%s: %s" % (c["src"], w), c["rp"])
             else:
                 for p_ in pids:
